@@ -177,6 +177,86 @@ func c02Manager(ev *vlib.Evidence, driver string, s store.Store, n int) {
 	}
 }
 
+// c02ManagerFaults: one store call of the update fails. A failed update must be
+// all-or-nothing; a successful one must stay exact for every peer it credited
+// and debit the client by exactly what was credited.
+func c02ManagerFaults(ev *vlib.Evidence, driver string, s store.Store, n int) {
+	clock := &vlib.VClock{}
+	for i := 0; i < n; i++ {
+		r := vlib.Rand("C02-fault-"+driver, i)
+		price := mustBig(c02Prices[r.Intn(len(c02Prices))])
+		interval := c02Intervals[r.Intn(len(c02Intervals))]
+		elapsed := interval*time.Duration(1+r.Intn(5)) + time.Duration(r.Intn(1000))
+		ch := vlib.NewChaos(s, int64(i))
+		mgr := balance.PayPerInterval(ch, interval, price)
+		mgr.VerifSetNow(clock.Now)
+		pfx := fmt.Sprintf("f%d-", i)
+		last := time.Unix(1700000000, 0)
+		client := store.Node{ID: store.NodeID(pfx + "client"), LastSeen: last}
+		s.SetNode(client)
+		np := 1 + r.Intn(5)
+		peers := []store.Node{}
+		ids := []string{string(client.ID)}
+		for j := 0; j < np; j++ {
+			p := store.Node{ID: store.NodeID(fmt.Sprintf("%speer%d", pfx, j)), IsHost: true, LastSeen: last}
+			s.SetNode(p)
+			s.AddNodeBalance(p.ID, big.NewInt(50000))
+			peers = append(peers, p)
+			ids = append(ids, string(p.ID))
+		}
+		before := map[string]*big.Int{}
+		for _, id := range ids {
+			before[id] = creditOf(s, id)
+		}
+		failOp := vlib.Pick(r, "AddNodeBalance", "AddNodeBalance", "AddNodeBalance", "GetNodeBalance")
+		failN := 1 + r.Intn(np+1)
+		ch.Fail = func(op string, n int) bool { return op == failOp && n == failN }
+		clock.Set(last.Add(elapsed))
+		credit := refCredit(elapsed, price, interval)
+		_, err := mgr.OnUpdate(client, peers)
+		ch.Fail = nil
+		desc := fmt.Sprintf("fault %s price=%s interval=%s elapsed=%s peers=%d fail=%s#%d err=%v", driver, price, interval, elapsed, np, failOp, failN, err != nil)
+		ev.Case(desc, credit.Sign() > 0)
+		ev.Count("manager-fault-cases", 1)
+		deltas := map[string]*big.Int{}
+		sum := new(big.Int)
+		for _, id := range ids {
+			d := new(big.Int).Sub(creditOf(s, id), before[id])
+			deltas[id] = d
+			sum.Add(sum, d)
+		}
+		detail := func() map[string]interface{} {
+			dl := []string{}
+			for _, id := range ids {
+				dl = append(dl, fmt.Sprintf("%s:%s", id[len(pfx):], deltas[id]))
+			}
+			return map[string]interface{}{"case": desc, "credit_per_peer": credit.String(), "deltas": dl, "err": fmt.Sprint(err)}
+		}
+		if sum.Sign() != 0 {
+			ev.Violate("fault:"+driver+":not-zero-sum:"+failOp, detail())
+			continue
+		}
+		if err != nil && failOp == "AddNodeBalance" {
+			// all-or-nothing
+			for _, id := range ids {
+				if deltas[id].Sign() != 0 {
+					ev.Violate("fault:"+driver+":failed-update-moved-credit", detail())
+					break
+				}
+			}
+			continue
+		}
+		// every peer got exactly the credit or nothing; hosts never pay
+		for _, p := range peers {
+			d := deltas[string(p.ID)]
+			if d.Sign() != 0 && d.Cmp(credit) != 0 {
+				ev.Violate("fault:"+driver+":peer-delta-not-credit-or-zero", detail())
+				break
+			}
+		}
+	}
+}
+
 // c02PoolHistory drives one client through several billed keep-alives via
 // signed vipnode_update and compares every balance delta with the reference.
 func c02PoolHistory(ev *vlib.Evidence, driver string, idx int) {
@@ -436,7 +516,7 @@ func c02Slicing(ev *vlib.Evidence, driver string, idx int) {
 
 func TestC02(t *testing.T) {
 	ev := vlib.NewEvidence("C02", "exploration",
-		"manager level: OnUpdate on a pinned billing clock for elapsed x price x interval x peer-set grids (shared wallets, host updaters, zero elapsed, empty peer sets) vs floor(elapsed*price/interval) computed over the rationals; pool level: signed vipnode_update histories comparing every account delta, the reply balance and the advance of LastSeen; slicing: the same span billed in 1, few and many updates; non-trivial = credit > 0 with >= 1 active peer billed; distinct = distinct case descriptors")
+		"fault level: one store call of an update fails (k-th peer credit, the client debit, a balance read): a failed update must move nothing, a successful one stays zero-sum with every peer credited exactly the price or nothing; manager level: OnUpdate on a pinned billing clock for elapsed x price x interval x peer-set grids (shared wallets, host updaters, zero elapsed, empty peer sets) vs floor(elapsed*price/interval) computed over the rationals; pool level: signed vipnode_update histories comparing every account delta, the reply balance and the advance of LastSeen; slicing: the same span billed in 1, few and many updates; non-trivial = credit > 0 with >= 1 active peer billed; distinct = distinct case descriptors")
 	ev.Assume("elapsed spans < 100 years; negative elapsed time is outside the quantifier")
 	for _, driver := range vlib.Drivers() {
 		s, cleanup, err := vlib.OpenStore(driver)
@@ -444,6 +524,7 @@ func TestC02(t *testing.T) {
 			t.Fatal(err)
 		}
 		c02Manager(ev, driver, s, vlib.Scale(2000, 50000))
+		c02ManagerFaults(ev, driver, s, vlib.Scale(600, 15000))
 		cleanup()
 		driver := driver
 		parallelCases(vlib.Scale(300, 6000), 8, func(i int) { c02PoolHistory(ev, driver, i) })
